@@ -9,7 +9,7 @@ use winter_crypto::{
     DefaultRandomCoin, ElementHasher, RandomCoin,
 };
 use winter_math::fields::{f128, f62, f64};
-use winter_prover::{Prover, TraceTable};
+use winter_prover::Prover;
 use winter_verifier::{verify, AcceptableOptions};
 
 use crate::common::{guarded, panic_key};
@@ -38,10 +38,16 @@ pub struct Scenario {
     pub free_tail: bool,
     #[serde(default)]
     pub corrupt: Option<(usize, usize)>, // (column, step)
+    /// (column, step) of the auxiliary segment to corrupt while proving
+    #[serde(default)]
+    pub aux_corrupt: Option<(usize, usize)>,
     #[serde(default)]
     pub expect: String,
     #[serde(default)]
     pub corruptions: Vec<Corruption>,
+    /// cells of the auxiliary segment to corrupt (C02), with the model's verdict
+    #[serde(default)]
+    pub aux_corruptions: Vec<Corruption>,
     /// the statement of Stark.tla this scenario was made from, with the model's derived quantities
     #[serde(default)]
     pub stmt: Option<Value>,
@@ -114,8 +120,8 @@ pub fn prove_with<B: SField, H: ElementHasher<BaseField = B> + Sync + Send, R: R
     claim: Option<ShapeInputs<B>>,
 ) -> Result<Proof, String> {
     let r = guarded(|| {
-        let prover = ShapeProver::<B, H, R> { options: options_of(sc), shape: sc.shape.clone(), claim, _p: PhantomData };
-        let trace = TraceTable::init(cols);
+        let prover = ShapeProver::<B, H, R> { options: options_of(sc), shape: sc.shape.clone(), claim, aux_corrupt: sc.aux_corrupt, _p: PhantomData };
+        let trace = crate::shape::ShapeTrace::new(&sc.shape, cols);
         prover.prove(trace)
     });
     match r {
@@ -205,7 +211,34 @@ pub fn reference_valid<B: SField>(shape: &Shape, cols: &[Vec<B>], inputs: &Shape
             }
         }
     }
+    // the auxiliary segment the prover builds from these main columns must meet the claimed auxiliary assertions: the
+    // value of a running-sum column at step s is r times the prefix sum of its main column, claimed as a public input
+    for (a, vals) in shape.aux_asserts.iter().zip(inputs.aux_values.iter()) {
+        if shape.aux_degs[a.col] != 1 {
+            continue;
+        }
+        let col = &cols[a.col % shape.width];
+        for (x, s) in shape.steps_of(a).iter().enumerate() {
+            let v = if vals.len() == 1 { vals[0] } else { vals[x] };
+            if col[..*s].iter().fold(B::ZERO, |acc, &e| acc + e) != v {
+                return false;
+            }
+        }
+    }
     true
+}
+
+/// Reference predicate for one changed cell of the auxiliary segment: the cell is determined by the statement iff it is
+/// in the Lagrange kernel column, or named by an auxiliary assertion, or is the `next` or the `cur` of an enforced transition.
+pub fn aux_cell_constrained(shape: &Shape, c: usize, i: usize) -> bool {
+    if shape.lagrange && c == shape.aux_width() - 1 {
+        return true;
+    }
+    let enforced = shape.n - shape.exempt; // transitions j -> j+1 for j < enforced
+    if (i >= 1 && i - 1 < enforced) || i < enforced {
+        return true;
+    }
+    shape.aux_asserts.iter().any(|a| a.col == c && shape.steps_of(a).contains(&i))
 }
 
 pub struct Sound;
@@ -227,6 +260,17 @@ impl Job for Sound {
                 Err(e) => (e, json!("n/a")),
             };
             cells.push(json!({"c": k.c, "i": k.i, "violated": k.violated, "ref_valid": ref_valid, "prove": prove, "verify": verdict}));
+        }
+        // ---- corrupted cells of the auxiliary segment (built inside the prover from the honest main segment) -----
+        for k in &sc.aux_corruptions {
+            let mut sc2 = sc.clone();
+            sc2.aux_corrupt = Some((k.c, k.i));
+            let ref_valid = !aux_cell_constrained(&sc.shape, k.c, k.i);
+            let (prove, verdict) = match prove_with::<B, H, DefaultRandomCoin<H>>(&sc2, b.cols.clone(), Some(b.inputs.clone())) {
+                Ok(p) => ("ok".to_string(), res_json(&verify_with::<B, H, DefaultRandomCoin<H>>(p, b.inputs.clone()))),
+                Err(e) => (e, json!("n/a")),
+            };
+            cells.push(json!({"aux": true, "c": k.c, "i": k.i, "violated": k.violated, "ref_valid": ref_valid, "prove": prove, "verify": verdict}));
         }
         out["cells"] = json!(cells);
         // ---- perturbed statements on an honest proof ---------------------------------------------------------
@@ -252,6 +296,15 @@ impl Job for Sound {
                     break;
                 }
             }
+        }
+        for (ai, vals) in b.inputs.aux_values.iter().enumerate() {
+            if sc.shape.aux_degs[sc.shape.aux_asserts[ai].col] != 1 {
+                continue; // the value of a product column's assertion is the constant 1, not a public input
+            }
+            let mut inp = b.inputs.clone();
+            let vi = vals.len() - 1;
+            inp.aux_values[ai][vi] += B::ONE;
+            add(format!("auxiliary assertion {ai} value {vi} + 1"), verify_with::<B, H, DefaultRandomCoin<H>>(fresh(), inp));
         }
         // the statement's shape parameters that keep the description well-formed
         {
@@ -282,8 +335,8 @@ impl Job for Sound {
             }
         }
         for (name, ti) in [
-            ("trace length x2", guarded(|| TraceInfo::new(sc.shape.width, sc.shape.n * 2))),
-            ("trace meta", guarded(|| TraceInfo::with_meta(sc.shape.width, sc.shape.n, vec![1]))),
+            ("trace length x2", guarded(|| TraceInfo::new_multi_segment(sc.shape.width, sc.shape.aux_width(), sc.shape.aux_rands, sc.shape.n * 2, vec![]))),
+            ("trace meta", guarded(|| TraceInfo::new_multi_segment(sc.shape.width, sc.shape.aux_width(), sc.shape.aux_rands, sc.shape.n, vec![1]))),
         ] {
             if let Ok(ti) = ti {
                 let mut p = fresh();
@@ -318,13 +371,29 @@ fn expected_messages<B: SField, E: winter_math::FieldElement<BaseField = B>, H: 
         e.write_into(&mut sb);
     }
     msgs.push(sb);
-    let (troots, croot, froots) = proof.commitments.clone().parse::<H>(1, layers).map_err(|e| format!("commitments: {e}"))?;
+    let segments = 1 + (inputs.shape.aux_width() > 0) as usize;
+    let (troots, croot, froots) = proof.commitments.clone().parse::<H>(segments, layers).map_err(|e| format!("commitments: {e}"))?;
     for r in troots {
         msgs.push(r.as_bytes().to_vec());
     }
     msgs.push(croot.as_bytes().to_vec());
-    let (frame, evals) = proof.ood_frame.clone().parse::<E>(inputs.shape.width, 0, ccols).map_err(|e| format!("ood frame: {e}"))?;
-    msgs.push(frame.hash::<H>().as_bytes().to_vec());
+    let (frame, evals) = proof.ood_frame.clone().parse::<E>(inputs.shape.width, inputs.shape.aux_width(), ccols).map_err(|e| format!("ood frame: {e}"))?;
+    // the digest of the out-of-domain trace frame, from its definition (not through TraceOodFrame::hash): the values of
+    // every main and auxiliary column at z and z*g interleaved, then the Lagrange kernel frame
+    let mut states: Vec<E> = vec![];
+    for (c, n) in frame.current_row().iter().zip(frame.next_row().iter()) {
+        states.push(*c);
+        states.push(*n);
+    }
+    if frame.current_row().len() != inputs.shape.width + inputs.shape.aux_degs.len() {
+        return Err(format!("ood frame: {} columns", frame.current_row().len()));
+    }
+    match (frame.lagrange_kernel_frame(), inputs.shape.lagrange) {
+        (Some(l), true) => states.extend(l.inner().iter().cloned()),
+        (None, false) => {},
+        _ => return Err("ood frame: Lagrange kernel frame presence".into()),
+    }
+    msgs.push(H::hash_elements(&states).as_bytes().to_vec());
     msgs.push(H::hash_elements(&evals).as_bytes().to_vec());
     for r in froots {
         msgs.push(r.as_bytes().to_vec());
